@@ -1,19 +1,19 @@
+\* Reference copy of the design configuration of C38 (deviation switches off: Persist, Opens, OneDefault must hold).
+\* props/C38.py generates its configurations (design + code-as-found with probed switches) from props/_wallet.cfg_text.
 SPECIFICATION Spec
 CONSTANTS
-  ImportIds <- Ids123
-  NewIdSeq <- NoNew
-  ArgLabels <- LabelsX
-  Pwds <- Pwds2
-  Schemes <- Schemes2
+  ImportIds = {1, 2}
+  NewIdSeq <- NewSeq3
+  ArgLabels = {"", "x"}
+  Pwds = {"p", "q"}
+  Schemes = {"SHA256withECDSA", "SHA3-256withECDSA"}
   BadScheme = "SM3withSM2"
   WScrypt = "low"
   MaxObj = 3
-  MaxOps = 4
-  Acts <- ActsNoNew
+  MaxOps = 5
+  Acts = {"New", "Import", "Delete", "SetDefault", "SetLabel", "ChangePassword", "ChangeScheme", "Reload"}
   NewIgnoresWalletScrypt = FALSE
   DupAddrImport = FALSE
 VIEW view
 INVARIANTS TypeOK Saved Persist Opens OneDefault
-CONSTRAINT InitOut
-ACTION_CONSTRAINT Edge
 CHECK_DEADLOCK FALSE
